@@ -194,7 +194,7 @@ def signedMembers (H : Bytes → Bytes) (row : VGen.VersionRow) (ver : Bytes) (p
         | none => .error (unmodelled "existing signatures")
         | some ns => .ok (setFirst b!"signatures" ns withHash)
 
-/-- the end of `Build`: `EnforcedCanonicalJSON`, `NewEventFromTrustedJSON(…, false)`, `CheckFields`.
+/-- the end of `Build`: `EnforcedCanonicalJSON`, `checkUntrustedEventJSON`, `NewEventFromTrustedJSON(…, false)`, `CheckFields`.
     As in the Go code, the trusted constructor is handed the canonical *text* and reads it back
     (`parse`): the event holds the value that text denotes — members sorted, `-0` written `0` — not
     the marshalling order of the builder struct. -/
@@ -203,7 +203,10 @@ def finishBuild (H : Bytes → Bytes) (row : VGen.VersionRow) (ver : Bytes) (sig
   | none => .error (unmodelled "canonical check function")
   | some false => .error .badJSON
   | some true =>
-    if !(JVal.obj signed).noDupKeys then .error (unmodelled "duplicate keys inside content / unsigned") else
+    -- `checkUntrustedEventJSON` on what was built (defect P5): the content / unsigned of the builder are raw JSON, a member
+    -- name may occur twice in them; the untrusted constructors refuse such an event, so `Build` does.  (Its second check,
+    -- a case variant of a struct field name at the top level, cannot fire: the top-level names are the struct's own.)
+    if !(JVal.obj signed).noDupKeys then .error .badJSON else
     match parse (encodeCanon (.obj signed)) with
     | none => .error (.other "invalid-json")
     | some p =>
